@@ -595,8 +595,12 @@ func genEndpoint(r *rng, u *universe, o *caseOpts) ([]*gtier, []*gprofile, []str
 	for t := 0; t < nT; t++ {
 		tr := &gtier{name: fmt.Sprintf("tier%d", t), defaultAction: []string{"Deny", "Deny", "Pass", ""}[r.intn(4)]}
 		nP := []int{0, 1, 1, 2, 2, 3, 4}[r.intn(7)]
-		if big && (t == 0 || r.chance(50)) {
-			nP = 5 + r.intn(8) // 5..12: crosses the return stride
+		bigTier := big && (t == 0 || r.chance(50))
+		if bigTier {
+			nP = 6 + r.intn(7) // 6..12: crosses the return stride once or twice
+			if r.chance(35) {
+				nP = 11 + r.intn(2)
+			}
 		}
 		var cur *ggroup
 		sel := 0
@@ -604,6 +608,9 @@ func genEndpoint(r *rng, u *universe, o *caseOpts) ([]*gtier, []*gprofile, []str
 			p := &gpolicy{}
 			polN++
 			kindIdx := r.intn(10)
+			if bigTier && kindIdx >= 7 && r.chance(60) {
+				kindIdx = r.intn(7) // fewer staged policies in big tiers so that groups of enforced policies get long
+			}
 			switch {
 			case kindIdx < 4:
 				p.id = types.PolicyID{Name: fmt.Sprintf("%s.pol%d", tr.name, polN), Kind: "GlobalNetworkPolicy"}
@@ -633,7 +640,11 @@ func genEndpoint(r *rng, u *universe, o *caseOpts) ([]*gtier, []*gprofile, []str
 			for i := 0; i < nr2; i++ {
 				p.out = append(p.out, genRule(r, u, big, true))
 			}
-			if cur == nil || r.chance(35) {
+			splitChance := 35
+			if bigTier {
+				splitChance = 7
+			}
+			if cur == nil || r.chance(splitChance) {
 				sel++
 				cur = &ggroup{}
 				tr.groups = append(tr.groups, cur)
@@ -701,6 +712,7 @@ func buildCase(r *rng, o *caseOpts, u *universe, tiers []*gtier, profs []*gprofi
 	}
 	if o.filterAllowReturn {
 		cfg.FilterAllowAction = "RETURN"
+		cfg.MangleAllowAction = "RETURN"
 	}
 	renderer := rules.NewRenderer(cfg, o.nft)
 	ver := o.ver
@@ -774,6 +786,21 @@ func buildCase(r *rng, o *caseOpts, u *universe, tiers []*gtier, profs []*gprofi
 			epChain = cs[1]
 			failsafe = rules.ChainFailsafeIn
 		}
+	case "hep-raw":
+		// raw table: untracked policy, no conntrack rules, allow = NOTRACK + return
+		cs := renderer.HostEndpointToRawChains("eth0", tpgs)
+		if o.egress {
+			epChain = cs[0]
+			failsafe = rules.ChainFailsafeOut
+		} else {
+			epChain = cs[1]
+			failsafe = rules.ChainFailsafeIn
+		}
+	case "hep-mangle":
+		// mangle table: pre-DNAT policy, ingress only
+		cs := renderer.HostEndpointToMangleIngressChains("eth0", tpgs)
+		epChain = cs[0]
+		failsafe = rules.ChainFailsafeIn
 	case "hep-fwd":
 		// forward chains take the forwardTiers argument and render no profiles; the normal tiers are decoys
 		cs := renderer.HostEndpointToFilterChains("eth0", nil, tpgs, epm, profIDs)
@@ -790,7 +817,8 @@ func buildCase(r *rng, o *caseOpts, u *universe, tiers []*gtier, profs []*gprofi
 		for _, g := range t.groups {
 			for _, p := range g.pols {
 				id := p.id
-				pol := &proto.Policy{InboundRules: protoRules(p.in), OutboundRules: protoRules(p.out), Tier: t.name}
+				pol := &proto.Policy{InboundRules: protoRules(p.in), OutboundRules: protoRules(p.out), Tier: t.name,
+					Untracked: o.kind == "hep-raw", PreDnat: o.kind == "hep-mangle"}
 				chains := renderer.PolicyToIptablesChains(&id, pol, uint8(ver))
 				want := rules.PolicyChainName(polPfx, &id, o.nft)
 				for _, ch := range chains {
@@ -1022,14 +1050,14 @@ func buildCase(r *rng, o *caseOpts, u *universe, tiers []*gtier, profs []*gprofi
 	if o.reject {
 		dk = "DenyReject"
 	}
-	cfgCoq := fmt.Sprintf("(Build_cfg %s %d %d %d %d %d %v false %s false false)", fl, mc.accept, mc.pass, mc.drop, mc.s0, mc.s1, o.flow, dk)
+	cfgCoq := fmt.Sprintf("(Build_cfg %s %d %d %d %d %d %v %v %s false false)", fl, mc.accept, mc.pass, mc.drop, mc.s0, mc.s1, o.flow, o.kind == "hep-raw", dk)
 	fs := "None"
 	if failsafe != "" {
 		fs = fmt.Sprintf("(Some \"%s\")", in.get(failsafe))
 	}
 	allow := "AllowAccept"
-	if o.filterAllowReturn {
-		allow = "AllowReturn"
+	if o.filterAllowReturn && o.kind != "hep-raw" {
+		allow = "AllowReturn" // FilterAllowAction / MangleAllowAction = RETURN; the raw chains always use ACCEPT
 	}
 	vx, ipip := "None", false
 	if o.kind == "wl" && o.egress {
@@ -1039,9 +1067,9 @@ func buildCase(r *rng, o *caseOpts, u *universe, tiers []*gtier, profs []*gprofi
 		ipip = !o.allowIPIP
 	}
 	adminUp := o.adminUp || o.kind != "wl"
-	ctype := "TNormal"
-	if o.kind == "hep-fwd" {
-		ctype = "TForward"
+	ctype := map[string]string{"hep-fwd": "TForward", "hep-raw": "TUntracked", "hep-mangle": "TPreDNAT"}[o.kind]
+	if ctype == "" {
+		ctype = "TNormal"
 	}
 	ecCoq := fmt.Sprintf("(Build_ecfg "+ctype+" %v %s %s %v %s %v %v)", adminUp, fs, allow, !o.disableCtInvalid, vx, ipip, treeProfileFix)
 	var setsCoq []string
@@ -1238,14 +1266,19 @@ func main() {
 		}
 		if k := r.intn(100); k < 18 {
 			o.kind = "hep"
-		} else if k < 32 {
+		} else if k < 30 {
 			o.kind = "hep-fwd"
+		} else if k < 38 {
+			o.kind = "hep-raw"
+		} else if k < 45 {
+			o.kind = "hep-mangle"
+			o.egress = false
 		}
 		u := newUniverse(o.ver)
 		w := genSets(r, u)
 		tiers, profs, tags := genEndpoint(r, u, o)
-		if o.kind == "hep-fwd" {
-			profs = nil // forward chains render no profile jumps; no profile chains are programmed for them here
+		if o.kind == "hep-fwd" || o.kind == "hep-raw" || o.kind == "hep-mangle" {
+			profs = nil // these chains render no profile jumps; no profile chains are programmed for them here
 		}
 		c, err := buildCase(r, o, u, tiers, profs, w, nil)
 		if err != nil {
